@@ -13,6 +13,7 @@ def setFlag (fl : Flags) (kv : String) : Flags :=
   | ["spv", v] => { fl with spvTypeCannotCreateOutputs := bit v }
   | ["fee", v] => { fl with singleFeeTx := bit v }
   | ["pool", v] => { fl with poolRejectsPrivilegedTypes := bit v }
+  | ["vdrop", v] => { fl with verifyDropsPrivilegedTypes := bit v }
   | ["merkle", v] => { fl with merkleAlwaysCompared := bit v }
   | ["loc", v] => { fl with inputLocationSigned := bit v }
   | ["win", v] => { fl with windowChecked := bit v }
